@@ -116,6 +116,84 @@ def specs(tier, rng):
     return out
 
 
+# ---- LALR with a post-lexer: the $END of a truncated input borrows from the last token FED ------------------------------
+END_GRAMMARS = {
+    'drop-comments': ('start: stmt+\nstmt: NAME "=" NAME ";"\nNAME: /[a-z]+/\nCOMMENT: /#[^\\n]*/\n%ignore /[ \\n]+/\n',
+                      ['a = b ; c = # note', 'a # x', 'a = b ; # done\nc', 'a = # one\n # two', 'a =', 'a = b ; c # t\n= # u', '# only a comment']),
+    'indenter': ('?start: _NL* stmt*\nstmt: NAME LPAR [args] RPAR _NL | NAME ":" _NL _INDENT stmt+ _DEDENT\nargs: NAME ("," NAME)*\n%declare _INDENT _DEDENT\n'
+                 'NAME: /[a-z]+/\nLPAR: "("\nRPAR: ")"\n_NL: /(\\r?\\n[\\t ]*)+/\n%ignore " "\n',
+                 ['f(a,\n', 'f(a,\n  b', 'x:\n  f(\n', 'f(', 'x:\n  f(a\n   ,\n', 'f(a)\ng(\n\n', 'x:', 'x:\n  f(a)\n  g(b,\n']),
+}
+
+
+def observe_end(job):
+    import logging
+    logging.disable(logging.CRITICAL)
+    from lark import Lark
+    from lark.indenter import Indenter
+    from lark.exceptions import UnexpectedToken, UnexpectedInput
+    name, lexer = job
+
+    class DropComments:
+        always_accept = ('COMMENT',)
+
+        def process(self, stream):
+            return (t for t in stream if t.type != 'COMMENT')
+
+    class Ind(Indenter):
+        NL_type = '_NL'
+        OPEN_PAREN_types = ['LPAR']
+        CLOSE_PAREN_types = ['RPAR']
+        INDENT_type = '_INDENT'
+        DEDENT_type = '_DEDENT'
+        tab_len = 8
+    g, texts = END_GRAMMARS[name]
+    out = []
+    p = Lark(g, parser='lalr', lexer=lexer, postlex=DropComments() if name == 'drop-comments' else Ind())
+
+    def six(t):
+        return [t.start_pos if isinstance(t.start_pos, int) else -1, t.end_pos if isinstance(t.end_pos, int) else -1, t.line or 0, t.column or 0,
+                t.end_line or 0, t.end_column or 0]
+    for text in texts:
+        for cut in range(len(text), max(0, len(text) - 6), -1):
+            src = text[:cut]
+            try:
+                p.parse(src)
+                continue
+            except UnexpectedToken as e:
+                if e.token.type != '$END':
+                    continue
+                tok = six(e.token)
+            except UnexpectedInput:
+                continue
+            try:
+                fed = [six(t) for t in p.lex(src)]
+            except Exception:
+                continue
+            out.append({'fed': fed, 'tok': tok, 'text': src, 'grammar': g, 'config': name + '/' + lexer})
+    return out
+
+
+def end_token_phase(ev, rep, tmp):
+    cases = [c for cs in C.pmap(observe_end, [(n, lx) for n in END_GRAMMARS for lx in ('basic', 'contextual')]) for c in cs]
+    ev.count('truncated_inputs_with_a_post_lexer', len(cases))
+    ev.count('of_which_text_follows_the_last_token_fed', sum(1 for c in cases if c['fed'] and c['fed'][-1][1] < len(c['text'].rstrip(' '))))
+    if len(cases) < 20:
+        raise C.MachineryFailure('post-lexer family: only %d truncated inputs reached $END' % len(cases))
+    path = C.write_batch({'cases': [{'fed': c['fed'], 'tok': c['tok']} for c in cases]}, tmp, 'c08_end.json')
+    res = C.tlc('TraceEnd', TRACE_END_CFG, env={'VERIF_BATCH': path}, workers=2, continue_=True, timeout=600)
+    C.tlc_must_run(res, 'TraceEnd')
+    ev.add_tlc('TraceEnd', res, 'trace')
+    os.remove(path)
+    for v in sorted(set(tuple(x) for x in res.verdicts)):
+        c = cases[int(v[0]) - 1]
+        rep.violation({'property': PID, 'clause': 'postlex:' + v[2], 'grammar': c['grammar'], 'text': c['text'], 'config': c['config'], 'end_token': c['tok'],
+                       'last_token_fed': c['fed'][-1] if c['fed'] else None})
+
+
+TRACE_END_CFG = 'SPECIFICATION Spec\nINVARIANT VerdictOk\nCHECK_DEADLOCK FALSE\n'
+
+
 def known_matcher(fnd, case):
     m = fnd.get('match', {})
     clause = case.get('clause', '')
@@ -162,6 +240,9 @@ def body(tier, seed, replay):
     rng = random.Random(seed)
     tmp = C.scratch_dir('c08_')
     try:
+        if replay and str(json.load(open(replay)).get('clause', '')).startswith('postlex:'):
+            end_token_phase(ev, rep, tmp)
+            return rep.finish()
         if replay:
             case = json.load(open(replay))
             got = observe_case({'family': case['family'], 'gtext': case['grammar'], 'inputs': [tuple(case['w'])], 'budget': 3})
@@ -187,6 +268,7 @@ def body(tier, seed, replay):
             if inp:
                 ev.sample({'grammar': c['gtext'], 'text': F.to_text(inp['w']), 'observed': inp['obs'][:3]})
         judge(cases, ev, rep, tmp, 'sweep')
+        end_token_phase(ev, rep, tmp)
         selftest(ev, cases, tmp)
         if ev.cov['counts'].get('rejections', 0) < 5000:
             raise C.MachineryFailure('vacuity: %s' % ev.cov['counts'])
